@@ -72,7 +72,7 @@ class Dag:
             op = rng.choice(["add", "sub", "int", "add", "sub"])
             self.node("%s:%d,%d" % (op, a, b), self.src[a] | self.src[b])
         elif k < 0.55:
-            ops = self.pick_disjoint(rng.randint(2, 5))
+            ops = self.pick_disjoint(rng.randint(2, 5) if rng.random() < 0.7 else rng.randint(5, 9))
             s = frozenset().union(*[self.src[i] for i in ops])
             self.node("batch:%d,%s" % (rng.randrange(3), ",".join(map(str, ops))), s)
         elif k < 0.65:
@@ -99,8 +99,8 @@ class Dag:
             self.eq.append((n2, n4))
             self.src[n4] = None if rng.random() < 0.5 else self.src[n4]
         elif k < 0.90:  # nested == batch
-            ops = self.pick_disjoint(rng.randint(3, 5))
-            kind = rng.choice([0, 2])
+            ops = self.pick_disjoint(rng.randint(3, 5) if rng.random() < 0.7 else rng.randint(5, 8))
+            kind = rng.choice([0, 0, 2])
             name = "add" if kind == 0 else "int"
             cur = ops[0]
             for o in ops[1:]:
@@ -169,7 +169,8 @@ class C03(Check):
             for _ in range(128):
                 c = make_case(rng)
                 fl = rng.choice(["ser", "par"])
-                args = dict(c, points=24, pseed=rng.randrange(1 << 30))
+                # hook H5: BatchUnion's chunk size (shipped 1000) as a per-run knob, so that the chunked path runs on 3-8 operands
+                args = dict(c, points=24, pseed=rng.randrange(1 << 30), mus=rng.choice([0, 0, 2, 3, 4, 6]))
                 if fl == "par":
                     args.update({"W": rng.choice([1, 2, 4, 8]), "stay": rng.choice([0, 30, 60, 85]), "own": rng.choice([30, 70, 95]),
                                  "seed": rng.randrange(1, 1 << 30), "thr": rng.choice([64, 16])})
